@@ -9,6 +9,7 @@ def run(ctx):
     shards = ctx.drive("d20", nshards=16, extra=["--opt", "behaviours=%s;maxiter=2" % beh], timeout=7200)
     laws = [s for s in shards if "-laws." in s]
     traces = [s for s in shards if "-laws." not in s]
+    ctx.drift_prefixes = ("Mismatch-",)     # structural deviation from Solver.tla without a property-level reason (see SolverTrace!Reasons)
     ctx.validate("SolverTrace", traces, count=False)
     ntr = 0
     for s in traces:
@@ -18,6 +19,7 @@ def run(ctx):
                     ntr += 1
     ctx.extra["traces"] = ntr
     ctx.records += ntr
+    ctx.drift_clauses |= {"FrameKeysNoExtras"}
     ctx.validate("FileIOTrace", laws)
     ctx.require_clauses(["Frame", "PaddedPoints", "CutPoints", "SameCells", "SameCellType", "SharedPoints", "FrameCount", "FrameOrder",
                          "FrameDisplacement", "FrameCellData", "FrameCustomData", "SaveDisplacement", "SaveReaction"])
